@@ -194,6 +194,20 @@ add(
     "3/C18",
 )
 
+add(
+    "C01",
+    "The real residual_variable_projection runs on terms with LAPACK replaced by its contract (dgeqrf: opaque (Q, R) with "
+    "A = Q[:, :n] R; dormqr: multiply by Q or Q^T according to the side/trans flags the code passes; dtrtrs: back "
+    "substitution): for A = Q[:, :n] R with Q from the Givens family (rational parameters; symbolic parameter for 2x1), R "
+    "upper triangular and the data vector fully symbolic, residual = data - A clp entry by entry and A^T residual = 0 "
+    "(hence clp minimises the norm), clp has n entries. residual_nnls: the solver gets exactly (matrix, data), clp is its "
+    "non-negative solution, residual = data - matrix clp. Dispatch: the named residual function is the one invoked, unknown "
+    "names are rejected before any evaluation.",
+    COMMON_NOTE + "LAPACK's and scipy-nnls' own numerics (KKT of scipy's solution) are the stubs' contracts; conditioning in "
+    "floating point (1e10) is outside.",
+    "3/C01",
+)
+
 ALL = [f"C{i:02d}" for i in range(1, 21)]
 
 
